@@ -1010,7 +1010,9 @@ static void run_abf_sequence(Result &r, AbfCfg const &c, std::vector<int> const 
     }
   }
   g_t[4] += now() - tt0; tt0 = now();
-  if (r.samples.size() < 1 && seq.size() >= 3) r.sample("{\"phase\":\"ABF\",\"grid\":" + g.str() + ",\"variant\":\"" + fk + "\",\"steps\":[" + seqs + "]}", 1);
+  bool have_abf_sample = false;
+  for (auto &x : r.samples) if (x.find("\"phase\":\"ABF\"") != std::string::npos) have_abf_sample = true;
+  if (!have_abf_sample && seq.size() >= 3) r.sample("{\"phase\":\"ABF\",\"grid\":" + g.str() + ",\"variant\":\"" + fk + "\",\"steps\":[" + seqs + "]}", 100);
   delete px;
 }
 
@@ -1203,6 +1205,7 @@ static void worker(int shard, int nshards, Result &r, std::vector<Item> const &i
     // The keys of these phases embed the item's identity (shape, widths, variant), so key sets of different items are
     // disjoint: distinct keys are counted exactly per item and summed, instead of shipping millions of hashes.
     Result tmp;
+    double tp0 = now();
     switch (it.phase) {
     case P_CONV: phase_conv(tmp, it.a, it.b, it.c); break;
     case P_BASIS: phase_basis(tmp, it.sh); break;
@@ -1210,6 +1213,10 @@ static void worker(int shard, int nshards, Result &r, std::vector<Item> const &i
     case P_ARR: phase_arr(tmp, it.sh, it.a, it.b); break;
     case P_ONED: phase_oned(tmp, it.a, it.b, it.c, it.d); break;
     case P_ABF: mine_abf.push_back(&it); break;
+    }
+    {
+      static const char *pn[] = {"CONV", "SOLVE", "BASIS", "ARR", "ONED", "ABF"};
+      if (getenv("C16_VERBOSE")) r.count(std::string("ms_") + pn[it.phase], (long) ((now() - tp0) * 1000));
     }
     r.count("local_distinct_states", (long) tmp.distinct["states"].size());
     r.count("local_distinct_nontrivial", (long) tmp.distinct["nontrivial"].size());
@@ -1240,6 +1247,7 @@ static void worker(int shard, int nshards, Result &r, std::vector<Item> const &i
     double t0 = now();
     long e0 = r.counters["evaluations"];
     phase_abf(r, it->abf, it->a, it->b, prefix);
+    if (getenv("C16_VERBOSE")) r.count("ms_ABF", (long) ((now() - t0) * 1000));
     if (getenv("C16_VERBOSE")) fprintf(stderr, "ABF item cfg %d nd %d pabf %d ti %d same %d first %d: %ld runs %.2f s\n", it->c, it->abf.nd, (int) it->abf.pabf, (int) it->abf.ti, (int) it->abf.same_step, it->a, r.counters["evaluations"] - e0, now() - t0);
     if (getenv("C16_VERBOSE")) fprintf(stderr, "   cumulative: new+config %.2f steps+checks %.2f batch %.2f end_run %.2f filecheck %.2f delete %.2f\n", g_t[0], g_t[1], g_t[2], g_t[3], g_t[4], g_t[5]);
   }
@@ -1299,6 +1307,7 @@ int main(int argc, char **argv)
     for (auto &v : r.violations) printf("VIOLATION %s\n%s\n", v.sig.c_str(), v.detail.c_str());
     printf("%zu violation(s)\n", r.violations.size());
     if (getenv("C16_KEEP")) { std::string cmd = "cat " + g_scratch + "/replay*pmf"; if (system(cmd.c_str())) {} }
+    if (use_shm) { std::string cmd = "rm -rf " + shm; if (system(cmd.c_str())) {} }
     return 0;
   }
   std::vector<Item> items = make_items();
@@ -1307,6 +1316,7 @@ int main(int argc, char **argv)
   bool ok = run_sharded(args.jobs, [&](int s, int n, Result &r) { worker(s, n, r, items); }, total, 3000);
   if (use_shm) { std::string cmd = "rm -rf " + shm; if (system(cmd.c_str()) != 0) fprintf(stderr, "could not remove %s\n", shm.c_str()); }
   if (!ok) return 2;
+  if (getenv("C16_VERBOSE")) total.notes.push_back("harness wall time " + std::to_string((long) (now() - t0)) + " s on " + std::to_string(args.jobs) + " workers");
   long by_phase[6] = {0, 0, 0, 0, 0, 0};
   for (Item const &it : items) by_phase[it.phase]++;
   total.notes.push_back("work items: CONV " + std::to_string(by_phase[P_CONV]) + ", SOLVE shapes " + std::to_string(by_phase[P_SOLVE]) + ", BASIS shapes " + std::to_string(by_phase[P_BASIS]) +
